@@ -344,10 +344,10 @@ static void c04_world_build(void) {
 static _Bool c04_wf_times(void) {
 	return g_c04_sigCal.publicationTime != NULL && g_c04_extCal.publicationTime != NULL && g_c04_aggr0.aggregationTime != NULL;
 }
-/* calendar chain 0x05 input_hash and publication data 0x04 imprint are mandatory too: KSI_DataHash_equals treats a missing
+/* calendar chain 0x05 input_hash, publication data 0x02 pub_time / 0x04 imprint and publication record 0x10 pub_data are mandatory too: KSI_DataHash_equals treats a missing
  * operand as "different", which would turn a malformed object into a contradiction */
 static _Bool c04_wf_hashes(void) {
-	return g_c04_extCal.inputHash != NULL && g_c04_filePubData.imprint != NULL && g_c04_fileRec.publishedData != NULL;
+	return g_c04_extCal.inputHash != NULL && g_c04_filePubData.imprint != NULL && g_c04_filePubData.time != NULL && g_c04_fileRec.publishedData != NULL;
 }
 
 /* no leak, no dangling handle: checked in every rule's postcondition */
